@@ -33,16 +33,37 @@ def variants(rng, files, full_builds, tier):
     for n in ((2, 3) if tier == "quick" else (1, 2, 3, 4)):
         for k in range(1, n + 1):
             vs.append(dict(partition=(k, n)))
+    # local mode from every directory that declares apps (only when laze would not take a nested directory for the project root)
+    if not any(f != "laze-project.yml" and f.endswith("laze-project.yml") for f in files):
+        for d in sorted(app_dirs(files)):
+            vs.append(dict(local=d))
     return vs
+
+def app_dirs(files):
+    """directory -> names of the apps declared in its lazefiles"""
+    import posixpath
+    out = {}
+    for fn, docs in files.items():
+        d = posixpath.dirname(fn) or "."
+        for doc in docs:
+            if "apps" not in doc: continue
+            for a in (doc["apps"] if doc["apps"] is not None else [{}]):
+                out.setdefault(d, set()).add(a.get("name") or (d if d != "." else ""))
+    return out
 
 def run(rep, tier, seed, rng):
     core.proof_step(rep, "C10", clean=(tier == "thorough"))
     laze = core.build_impl(); driver = core.build_model()
     nproj = 40 if tier == "quick" else 400
     base = []
-    while len(base) < nproj:
-        f, c = genproj.gen_project(rng, focus=rng.choice([None, "build", "layout"]))
-        c = {k: v for k, v in c.items() if k not in ("builders", "apps")}
+    from .. import directed
+    for f, c in directed.cases():
+        if sum(len(doc.get(k) or []) for docs in f.values() for doc in docs for k in ("apps", "builders")) >= 3:
+            base.append((f, {k: v for k, v in c.items() if k not in ("builders", "apps", "local")}))
+    ndirected = len(base)
+    while len(base) < ndirected + nproj:
+        f, c = genproj.gen_project(rng, focus=rng.choice([None, "build", "layout", "layout"]))
+        c = {k: v for k, v in c.items() if k not in ("builders", "apps", "local")}
         base.append((f, c))
     full = e2e.run_batch(laze, driver, base)
     cases, owner = [], []
@@ -74,9 +95,17 @@ def run(rep, tier, seed, rng):
             if key not in fullb:
                 rep.violation("a sub-selection configures a build the full run does not", gen_common.replay_data(r, build=key), found_input=True); continue
             if closure(pf, b["out"]) != closure(ps, b["out"]):
-                rep.violation("statements reachable from %s differ between the full run and the sub-selection %s" % (b["out"], {k: c[k] for k in ("builders", "apps", "partition") if k in c}),
+                rep.violation("statements reachable from %s differ between the full run and the sub-selection %s" % (b["out"], {k: c[k] for k in ("builders", "apps", "partition", "local") if k in c}),
                               gen_common.replay_data(r, build=key, full_cli=fr["cli"]), found_input=True)
-        if "partition" in c:
+        if "local" in c:
+            # local mode: only apps declared in the start directory, and every build of an app declared only there
+            ad = app_dirs(f); here = ad.get(c["local"], set()); elsewhere = set().union(*[v for d, v in ad.items() if d != c["local"]] or [set()])
+            got = sorted((b["builder"], b["app"]) for b in r["impl"]["builds"])
+            must = sorted(k for k in fullb if k[1] in here - elsewhere)
+            if any(k[1] not in here for k in got) or any(k not in got for k in must):
+                rep.violation("local mode from %r configures %s; the apps declared there are %s and the full run has %s for the apps declared only there"
+                              % (c["local"], got, sorted(here), must), gen_common.replay_data(r), found_input=True)
+        elif "partition" in c:
             k, n = c["partition"]
             shards.setdefault((i, n), {})[k] = sorted((b["builder"], b["app"]) for b in r["impl"]["builds"])
         else:
@@ -128,8 +157,8 @@ def run(rep, tier, seed, rng):
                 break
     rep.cov.update(sequence_steps_in_shared_build_dir=nseq)
     rep.cov.update(evaluations=len(base) + len(cases), distinct_nontrivial=len(distinct),
-                   rule="random projects; each is generated in full and then with single builder, single app, a 2x2 subset and every count:k/N (N in 2,3 quick; 1..4 thorough); "
+                   rule="directed corpus + random projects; each is generated in full (global mode) and then with single builder, single app, a 2x2 subset, every count:k/N (N in 2,3 quick; 1..4 thorough) and in local mode from every directory that declares apps; "
                         "per configured build the closure of statements reachable from its output is compared between runs; shards are checked to be a disjoint cover; "
                         "every run is also compared byte-for-byte with the model; non-trivial = a sub-selection run of a project with >=1 configured build",
                    samples=[dict(cli=cases[0][1]) if cases else {}], builds_compared=nchecked, disagreements=ndis, runs_skipped_for_K06_collisions=skipped_k06)
-    rep.assumptions.append("local mode (-C subdir without -g) and hash: partitions are not exercised yet; hash: is covered by theorem C10_hash_cover for any shard assignment")
+    rep.assumptions.append("hash: partitions are not exercised (the hash seed is per process); hash: is covered by theorem C10_hash_cover for any shard assignment")
